@@ -154,16 +154,18 @@ def unit_late_classes():
             import subprocess, sys, tempfile, shutil
             tmp = tempfile.mkdtemp(prefix="vf_plugin_")
             try:
-                with open(os.path.join(tmp, "p.py"), "w") as f: f.write("from cutplace import checks\nclass FolderCheck(checks.AbstractCheck):\n    pass\n")
+                # every *.py file of the folder is a plug-in module, whatever its name
+                for fname, cname in (("p.py", "FolderCheck"), ("__init__.py", "InitFolderCheck"), ("_private.py", "PrivateFolderCheck")):
+                    with open(os.path.join(tmp, fname), "w") as f: f.write("from cutplace import checks\nclass %s(checks.AbstractCheck):\n    pass\n" % cname)
                 steps = {"cid": "interface.Cid()\n", "plugins": "interface.import_plugins(%r)\n" % tmp,
                          "derive": "class LateFieldFormat(fields.TextFieldFormat):\n    pass\nclass LateCheck(checks.IsUniqueCheck):\n    pass\n",        # user classes built on the built-in ones
                          "define": "class LateFieldFormat(fields.AbstractFieldFormat):\n    def __init__(self, n, e, l, r, d):\n        super().__init__(n, e, l, r, d, empty_value='')\n    def validated_value(self, v):\n        return v\n"
                                    "class LateCheck(checks.AbstractCheck):\n    pass\n"}
                 code = ("import sys; sys.path.insert(0, %r)\nfrom cutplace import interface, fields, checks\n" % os.environ.get("PYVC_REPO", "/repo")) + "".join(steps[o] for o in order)
                 code += ("cid = interface.Cid(); cid.read('c', [['d','format','delimited'],['f','a','','','','Late',''],['f','b','','','','Text',''],['c','x','Late','a']%s])\n"
-                         "print(type(cid.field_formats[0]).__name__, type(cid.check_for('x')).__name__%s)\n") % (",['c','y','Folder','a']" if "plugins" in order else "", ", type(cid.check_for('y')).__name__" if "plugins" in order else "")
+                         "print(type(cid.field_formats[0]).__name__, type(cid.check_for('x')).__name__%s)\n") % (",['c','y','Folder','a'],['c','y2','InitFolder','a'],['c','y3','PrivateFolder','a']" if "plugins" in order else "", ", type(cid.check_for('y')).__name__, type(cid.check_for('y2')).__name__, type(cid.check_for('y3')).__name__" if "plugins" in order else "")
                 p = subprocess.run([sys.executable, "-W", "ignore", "-c", code], capture_output=True, text=True, timeout=120)
-                want = "LateFieldFormat LateCheck" + (" FolderCheck" if "plugins" in order else "")
+                want = "LateFieldFormat LateCheck" + (" FolderCheck InitFolderCheck PrivateFolderCheck" if "plugins" in order else "")
                 return None if p.stdout.strip().endswith(want) else {"expected": want, "observed": (p.stdout + p.stderr)[-400:]}
             finally:
                 shutil.rmtree(tmp, ignore_errors=True)
